@@ -49,7 +49,8 @@ def gen_file(rnd, with_custom=True):
     offids = rnd.sample([0, 3, 11, -2], 2)
     plines = [[['tag', 'PARAMS_SE3OFFSET'], ['id', tab.idsym(o)]] + [num(x) for x in [val(), val(), val()] + quat()] for o in offids]
     if rnd.random() < 0.6:      # (also with id 0, the id EDGE_SE2_XY edges carry: such edges have NO offset field and must keep the identity)
-        plines.append([['tag', 'PARAMS_SE2OFFSET'], ['id', tab.idsym(rnd.choice([0, 5, 0]))], num(val()), num(val()), num(rnd.choice([0.3, -4.0, 2.0]))])
+        # (its id may coincide with an SE(3) offset parameter's id -- parameters are keyed by TYPE and id -- and it may come first)
+        plines.insert(rnd.choice([0, len(plines)]), [['tag', 'PARAMS_SE2OFFSET'], ['id', tab.idsym(rnd.choice([0, 5, 0] + offids))], num(val()), num(val()), num(rnd.choice([0.3, -4.0, 2.0]))])
     if rnd.random() < 0.3:      # a parameter id defined twice: the later line wins for the edges after it
         plines.append([['tag', 'PARAMS_SE3OFFSET'], ['id', tab.idsym(offids[0])]] + [num(x) for x in [val(), val(), val()] + quat()])
     elines = []
